@@ -414,7 +414,7 @@ func (c SetProposalDurationsProposalHandler) Apply(ctx sdk.Context, proposalID u
 	for i, pt := range p.TypeofProposals {
 		err := c.keeper.SetProposalDuration(ctx, pt, p.ProposalDurations[i])
 		if err != nil {
-			return nil
+			return err
 		}
 	}
 	return nil
